@@ -34,6 +34,13 @@ for line in open(os.path.join(VERIF, "properties.jsonl")):
 
 NOT_APPLICABLE = {"C11"}
 
+# glue outside both engines (closures over &mut self fields, Box<dyn Iterator + '_>): three to five lines each,
+# reviewed by hand; an edit leaves the listed properties undecided (exit 2)
+REVIEW_ONLY = {
+    "Vt::feed_str": ("C02", "C12", "C13", "C14", "C15", "C20"),
+    "Vt::resize": ("C02", "C10", "C13", "C15"),
+}
+
 LEVELS = {  # level reported in the evidence (must match MANIFEST)
 }
 
@@ -170,13 +177,15 @@ def main():
         os.remove(evid_path)
 
     kf = known_findings()
+    # functions Verus does not verify are pinned by token hash (contracts/anchor_baseline.json)
+    changed = weave.pinned_changed(REPO)
     # ---- Kani units of this property run concurrently with the Verus pass ---------------------
     import threading
     kbox = {}
 
     def _kani():
         try:
-            kbox["res"] = kani_run.run_for_property(REPO, prop, tier)
+            kbox["res"] = kani_run.run_for_property(REPO, prop, tier, changed)
         except Exception as e:  # tool problem: undecided, never an alarm
             kbox["res"] = {"violations": [], "undecided": ["kani driver failed: %s" % e], "obligations": 0, "samples": [],
                            "units": [], "cmds": [], "trusted": [], "bounded": 0}
@@ -198,6 +207,16 @@ def main():
     # listed findings that no longer fail are simply not printed (fixed entries suppress nothing)
     kt.join()
     kres = kbox["res"]
+    # changed functions that nothing machine-checks: reviewed-only glue (REVIEW_ONLY), or functions with
+    # an assumed contract whose units did not decide (timeout) -> the properties resting on them are undecided
+    for key in changed:
+        short = key.split("::", 1)[1] if "::" in key else key
+        if prop in REVIEW_ONLY.get(short, ()):
+            undecided.append({"reason": "%s changed: the property rests on the reviewed shape of this function (no contract, no unit can decide it)" % short, "rendered": ""})
+    if changed and kres.get("timeouts"):
+        late = [u["name"] for u in kani_run.units() if u["name"] in kres["timeouts"] and kani_run.touches(u, changed)]
+        if late:
+            undecided.append({"reason": "function(s) with an assumed contract changed (%s) and the unit(s) %s did not finish" % (", ".join(k.split("::", 1)[1] for k in changed)[:200], ", ".join(late)), "rendered": ""})
     for u in kres["undecided"]:
         undecided.append({"reason": "kani: " + u, "rendered": ""})
     for kv in kres["violations"]:
@@ -239,6 +258,11 @@ def main():
     # ---- evidence ----------------------------------------------------------------------------
     anchors = res.anchors or {"clauses": [], "functions": []}
     obs = obligations_for(anchors, prop)
+    if rc == 0 and (len(obs) == 0 or res.verified == 0):
+        # vacuity guard: a run that generated or verified nothing must not report success
+        rc = 2
+        undecided.append({"reason": "no obligation generated / nothing verified for this property (vacuous run)", "rendered": ""})
+        print("UNDECIDED no obligation generated or nothing verified for %s" % prop)
     failed_names = set(f["obligation"] for f in violations)
     n_obl = len(obs) + kres["obligations"]   # bounded Kani units are NOT counted as proof obligations
     n_failed = len([1 for (n, _) in obs if n in failed_names]) + len([v for v in violations if v.get("engine") == "kani"])
@@ -271,6 +295,8 @@ def main():
             "kani": kres["units"],
             "kani_bounded_units": kres.get("bounded", 0),
             "kani_units_not_decided_timeout": kres.get("timeouts", []),
+            "unverified_functions_changed_since_baseline": changed,
+            "kani_units_escalated_from_thorough": kres.get("escalated", []),
             "evaluations": n_obl + kres.get("cbmc_checks", 0),
             "distinct_nontrivial": max(2, res.verified + kres.get("covers_hit", 0)),
             "rule": "evaluations = named Verus obligations of this property + individual CBMC checks of its Kani units; distinct_nontrivial = functions/lemmas verified by Verus + Kani cover properties reached (each a distinct reachable scenario)",
